@@ -214,21 +214,31 @@ def swap (st : InvState) (a b : Nat) : InvState := { st with t := (st.t.rowSwap 
 def rsum (st : InvState) (a b : Nat) : InvState := { st with t := (st.t.rowSum a b).norm }
 end InvState
 
-/-- block 1, column `j` (the pivot row index equals `j`): bring a pivot to the diagonal; Hadamard on a Z pivot that is
-    not already alone to its right -/
-def invStep1 (n : Nat) (st : InvState) (j : Nat) : InvState :=
+/-- the clearing loop of block 1 (`for row_i in range(pivot[0] + 1, n): if z[row_i, j] == 1:
+    tableau = tab_row_sum(tableau, pivot[0], row_i)`; the pivot row index equals `j`) -/
+def invClear (n j : Nat) (st : InvState) : InvState :=
+  ((List.range n).filter fun i => j < i).foldl (fun acc i => if (acc.t.row i).z j then acc.rsum j i else acc) st
+
+/-- block 1, column `j` (the pivot row index equals `j`): bring a pivot to the diagonal.  In the `z_list` branch the
+    candidates are filtered to the generators without any x-bit (`not np.any(tableau.x_matrix[i])`), the last one is
+    swapped to the diagonal (`z_list[-1]`: IndexError when the filtered list is empty), the Z of column `j` is cleared
+    from the rows below, and a Hadamard is emitted when the pivot is not already alone to its right -/
+def invStep1 (n : Nat) (st : InvState) (j : Nat) : Except Err InvState :=
   let (xs, ys, zs) := st.t.pauliTypeFinder j j
   match xs.head? with
-  | some f => st.swap j f
+  | some f => .ok (st.swap j f)
   | none =>
     match ys.head? with
-    | some f => st.swap j f
+    | some f => .ok (st.swap j f)
     | none =>
-      match zs.getLast? with
-      | some f =>
-        let s1 := st.swap j f
-        if ((List.range n).filter fun k => j < k).any fun k => (s1.t.row j).x k || (s1.t.row j).z k then s1.gate (.H j) else s1
-      | none => st
+      if zs.isEmpty then .ok st
+      else
+        match (zs.filter fun i => !(List.range n).any fun k => (st.t.row i).x k).getLast? with
+        | none => .error .index
+        | some f =>
+          let s1 := invClear n j (st.swap j f)
+          .ok (if ((List.range n).filter fun k => j < k).any fun k => (s1.t.row j).x k || (s1.t.row j).z k
+               then s1.gate (.H j) else s1)
 
 /-- block 2: CNOTs clear the X part right of the diagonal -/
 def invStep2 (st : InvState) (jk : Nat × Nat) : InvState :=
@@ -248,9 +258,12 @@ def invStep6 (st : InvState) (jk : Nat × Nat) : InvState :=
 /-- block 7: X gates fix the signs (`for i in np.nonzero(tableau.phase)[0]`, the index list is computed once) -/
 def invStep7 (st : InvState) (i : Nat) : InvState := st.gate (.X i)
 
-def invBlocks (t0 : STab) : InvState :=
-  let n := t0.n
-  let s1 := (List.range n).foldl (invStep1 n) { t := t0, circ := [] }
+/-- block 1 (the first "Hadamard block") over all columns; an error of a step aborts the function -/
+def invBlock1 (t0 : STab) : Except Err InvState :=
+  (List.range t0.n).foldlM (invStep1 t0.n) { t := t0, circ := [] }
+
+/-- blocks 2 to 7 -/
+def invRest (n : Nat) (s1 : InvState) : InvState :=
   let s2 := (pairsLt n).foldl invStep2 s1
   let s3 := (pairsLt n).foldl invStep3 s2
   let s4 := (List.range n).foldl invStep4 s3
@@ -258,11 +271,19 @@ def invBlocks (t0 : STab) : InvState :=
   let s6 := (pairsLt n).foldl invStep6 s5
   ((List.range n).filter fun i => (s6.t.row i).r).foldl invStep7 s6
 
+def invBlocks (t0 : STab) : Except Err InvState :=
+  match invBlock1 t0 with
+  | .error e => .error e
+  | .ok s1 => .ok (invRest t0.n s1)
+
 /-- `inverse_circuit(tableau)` → `(tableau, circuit_list)` -/
 def inverseCircuit (t : STab) : Except Err (STab × List Gate) :=
   match t.canonicalForm with
   | .error e => .error e
-  | .ok t0 => .ok ((invBlocks t0).t, (invBlocks t0).circ)
+  | .ok t0 =>
+    match invBlocks t0 with
+    | .error e => .error e
+    | .ok s => .ok (s.t, s.circ)
 
 /-- `StabilizerTableau(n)` / the all-|0⟩ state -/
 def zero (n : Nat) : STab := { n := n, row := fun i => PRow.Zq i }
